@@ -89,6 +89,56 @@ pub fn run_wrap(t: &str, s: usize, e: usize) -> Outcome {
     }
 }
 
+/// Error pretty-printing (lrpar::diagnostics): the lines printed for a span are, in order, "<line number>| <line text>" for
+/// every line from the one holding the span's first byte to the one holding its last, numbered as the property says
+/// (one plus the number of newlines before the line), and the message is printed.
+pub fn run_diag(t: &str, s: usize, e: usize) -> Outcome {
+    use lrpar::diagnostics::SpannedDiagnosticFormatter;
+    let path = std::path::Path::new("f");
+    // "msg at path:line:col": the position of the span's first byte as the line table gives it
+    {
+        let nlc = NewlineCache::from_str(t).unwrap();
+        if let Some((l, c)) = nlc.byte_to_line_num_and_col_num(t, s) {
+            let want = format!("M at f:{}:{}", l, c);
+            match catch_unwind(AssertUnwindSafe(|| SpannedDiagnosticFormatter::new(t, path).file_location_msg("M", Some(Span::new(s, e))))) {
+                Err(_) => return Outcome { fails: true, observed: "panic in file_location_msg".into(), expected: want },
+                Ok(got) => if got != want { return Outcome { fails: true, observed: got, expected: want }; }
+            }
+        }
+    }
+    let r = catch_unwind(AssertUnwindSafe(|| SpannedDiagnosticFormatter::new(t, path).underline_span_with_text(Span::new(s, e), "MSG".to_string(), '^')));
+    // reference: line starts
+    let mut starts = vec![0usize];
+    for (i, b) in t.bytes().enumerate() { if b == b'\n' { starts.push(i + 1); } }
+    let line_of = |off: usize| -> usize { match starts.binary_search(&off) { Ok(k) => k, Err(k) => k - 1 } };
+    let first = line_of(s);
+    // the line holding the last byte of the span (for an empty span: the line of its start)
+    let last = if e > s { line_of(e - 1) } else { first };
+    let render = |last: usize| -> Vec<String> {
+        let mut exp: Vec<String> = Vec::new();
+        for l in first..=last {
+            let st = starts[l];
+            let en = if l + 1 < starts.len() { starts[l + 1] - 1 } else { t.len() };
+            let mut text = &t[st..en];
+            if l + 1 < starts.len() && text.ends_with('\r') { text = &text[..text.len() - 1]; }   // (CR LF is one line terminator)
+            exp.push(format!("{}| {}", l + 1, text));
+        }
+        exp
+    };
+    let exp = render(last);
+    // where the span's last byte is itself a newline (its end is a line start) the line that starts there may be shown
+    // too (the reading span_line_bytes takes, fixed by the repository's test spanlines_str)
+    let exp2 = if e > s && starts.binary_search(&e).is_ok() { Some(render(line_of(e))) } else { None };
+    let expected = format!("lines {:?} and the message", exp);
+    match r {
+        Err(_) => Outcome { fails: true, observed: "panic".into(), expected },
+        Ok(o) => {
+            let got: Vec<String> = o.split('\n').filter(|l| l.split_once("| ").map_or(false, |(n, _)| !n.is_empty() && n.bytes().all(|c| c.is_ascii_digit()))).map(|l| l.to_string()).collect();
+            Outcome { fails: (got != exp && Some(&got) != exp2.as_ref()) || !o.contains("MSG"), observed: format!("{:?}", o), expected }
+        }
+    }
+}
+
 fn texts(maxlen: usize) -> Vec<String> {
     let alpha = ['a', '\n', '\r', 'é'];
     let mut out = vec![String::new()];
@@ -109,6 +159,16 @@ fn texts(maxlen: usize) -> Vec<String> {
 }
 
 pub fn search(tag: &str, tier: &str) -> Option<Value> {
+    if tag.contains(".diag.") {
+        for t in texts(if tier == "thorough" { 6 } else { 5 }) {
+            let bs: Vec<usize> = (0..=t.len()).filter(|i| t.is_char_boundary(*i)).collect();
+            for &a in &bs { for &b in &bs { if a <= b {
+                let o = run_diag(&t, a, b);
+                if o.fails { return Some(witness("c19_diag", json!({"text": t, "start": a, "end": b}), &o)); }
+            } } }
+        }
+        return None;
+    }
     let maxlen = if tier == "thorough" { 7 } else { 6 };
     let span_q = tag.contains("span") || tag.contains("st_line") || tag.contains("bsearch") || tag.contains("newlines[");
     let col_q = tag.contains(".col.") || tag.contains("slice_start");
